@@ -43,9 +43,25 @@ let run_generated line =
     end
   | _ -> report "BAD" "unparsable case line" line
 
+(* Y 4: diff and with_defaults_from as functions, against ydiff / ywith_defaults (environments compared as sorted maps) *)
+let run_diff line =
+  match split_on '|' (String.sub line 4 (String.length line - 4)) with
+  | [c; d; x; xd; cd] ->
+    bump "form:diff-and-defaults"; note_distinct line true;
+    if x = "panic" then report "SPEC:C17" "TestCaseConfig::diff panicked" line
+    else begin
+      let sort_env (y : ycfg) = { y with y_env = List.sort compare y.y_env } in
+      let c = cfg_of_fields c and d = cfg_of_fields d in
+      if sort_env (ydiff c d) <> sort_env (cfg_of_fields x) then report "DIFF:one-liner" "TestCaseConfig::diff is not the model's ydiff" line;
+      if sort_env (ywith_defaults (cfg_of_fields x) d) <> sort_env (cfg_of_fields xd) then report "DIFF:one-liner" "with_defaults_from is not the model's ywith_defaults" line;
+      if d.y_env = [] && xd <> cd then report "SPEC:C17" "what diff leaves out does not come back from the defaults" line;
+      if d.y_env <> [] then bump (if xd = cd then "diff:defaults-with-environment:restored" else "diff:defaults-with-environment:NOT-restored (latent, see DESIGN 10)")
+    end
+  | _ -> report "BAD" "unparsable case line" line
+
 let run () = iter_lines (fun line ->
   let kind = line.[2] in
-  if kind = '3' then run_generated line else
+  if kind = '3' then run_generated line else if kind = '4' then run_diff line else
   match split_on '|' (String.sub line 4 (String.length line - 4)) with
   | [orig; text; back] ->
     let fields = split_on ' ' orig in
